@@ -5,6 +5,7 @@ import (
 	"go/ast"
 	"go/token"
 	"go/types"
+	"os"
 	"sort"
 	"strings"
 
@@ -207,6 +208,252 @@ func (c *Ctx) schemaVisitsFrom(fam *expFamily, fd *ast.FuncDecl, target types.Ob
 		}
 		return true
 	})
+	// the same facts read off the effect normal form (closures, generic iteration helpers and lists of
+	// positions are inlined there); they are added to what the syntactic pass found
+	for p, vi := range c.schemaVisitsSim(fam, fd, target, depth) {
+		if prev, dup := out[p]; !dup || (!prev.stored && vi.stored) {
+			out[p] = vi
+		}
+	}
+	return out
+}
+
+// expanderHappyPaths normalises an expander on the paths where nothing goes wrong: family members stay opaque,
+// the stop predicate answers false, errors are nil, results of family calls are non-nil.
+func (c *Ctx) expanderHappyPaths(fam *expFamily, fd *ast.FuncDecl) ([]spath, bool) {
+	if c.happyMemo == nil {
+		c.happyMemo = map[*ast.FuncDecl][]spath{}
+		c.happyOK = map[*ast.FuncDecl]bool{}
+	}
+	if ps, done := c.happyMemo[fd]; done {
+		return ps, c.happyOK[fd]
+	}
+	ps, ok := c.expanderHappyPathsUncached(fam, fd)
+	c.happyMemo[fd], c.happyOK[fd] = ps, ok
+	return ps, ok
+}
+
+func (c *Ctx) expanderHappyPathsUncached(fam *expFamily, fd *ast.FuncDecl) ([]spath, bool) {
+	isFamResult := func(v sval) bool {
+		sc, ok := v.(svCall)
+		if !ok {
+			return false
+		}
+		f, isF := sc.callee.(*types.Func)
+		return isF && fam.members[f]
+	}
+	var mentionsErr func(v sval) bool
+	mentionsErr = func(v sval) bool {
+		switch x := v.(type) {
+		case svCall:
+			if tup, ok := c.typeOf(x.call).(*types.Tuple); ok && x.idx == tup.Len()-1 && isErrorType(tup.At(x.idx).Type()) {
+				return true
+			}
+			if t := c.typeOf(x.call); t != nil && isErrorType(t) {
+				return true
+			}
+		}
+		return false
+	}
+	force := func(v sval) (bool, bool) {
+		switch x := v.(type) {
+		case svCall:
+			// a predicate over an error (the stop predicate, whatever it is called through): not stopping
+			if len(x.args) == 1 && mentionsErr(x.args[0]) {
+				return false, true
+			}
+			if f, ok := x.callee.(*types.Func); ok && c.isStopPredicateFunc(f) {
+				return false, true
+			}
+		case svBin:
+			if x.op == token.NEQ {
+				if _, isNil := x.y.(svNil); isNil {
+					if isFamResult(x.x) && !mentionsErr(x.x) {
+						return true, true
+					}
+					if mentionsErr(x.x) {
+						return false, true
+					}
+					// a part of the value being expanded is there
+					if q, isPath := x.x.(svPath); isPath && len(q.steps) > 0 {
+						if r := c.recvObj(fd); q.root == c.paramObj(fd, 0) || r != nil && q.root == r {
+							return true, true
+						}
+						if v, isVar := q.root.(*types.Var); isVar && isElementOrSchema(c, v.Type()) {
+							return true, true
+						}
+					}
+					if _, isSel := x.x.(svSel); isSel {
+						return true, true
+					}
+				}
+			}
+		}
+		return false, false
+	}
+	paths, unsup := c.simulateForced(fd, func(f *types.Func) bool {
+		if fam.members[f] || c.isStopPredicateFunc(f) {
+			return false
+		}
+		// only what lies between this expander and the family matters: functions that reach a member, and
+		// helpers that are handed function values
+		sig := f.Type().(*types.Signature)
+		for i := 0; i < sig.Params().Len(); i++ {
+			if _, isFunc := sig.Params().At(i).Type().Underlying().(*types.Signature); isFunc {
+				return true
+			}
+		}
+		return c.reaches(f, func(h *types.Func) bool { return h != f && fam.members[h] })
+	}, false, force)
+	if os.Getenv("SIMDEBUG") != "" {
+		fmt.Fprintf(os.Stderr, "happy paths of %s: %d paths, unsupported=%q\n", c.funcName(fd), len(paths), unsup)
+		if len(paths) > 0 {
+			for _, e := range paths[0].effs {
+				if e.kind == "call" {
+					fmt.Fprintf(os.Stderr, "   call %s\n", svString(*e.call))
+				} else if e.kind == "write" {
+					fmt.Fprintf(os.Stderr, "   write %s := %s\n", svString(e.dst), svString(e.val))
+				}
+			}
+		}
+	}
+	return paths, unsup == "" && len(paths) > 0
+}
+
+// isStopPredicateFunc: a package method taking one error and returning bool (the stop-on-error predicate).
+func (c *Ctx) isStopPredicateFunc(f *types.Func) bool {
+	if f == nil || f.Pkg() != c.Types {
+		return false
+	}
+	sig := f.Type().(*types.Signature)
+	if sig.Recv() == nil || sig.Params().Len() != 1 || sig.Results().Len() != 1 {
+		return false
+	}
+	b, ok := sig.Results().At(0).Type().Underlying().(*types.Basic)
+	return ok && b.Kind() == types.Bool && isErrorType(sig.Params().At(0).Type())
+}
+
+// posBelow: the position below target that a normal-form value designates ("" for target itself), looking
+// through the results of schema expanders (an expanded X stands where X stood), copies and element selection.
+func (c *Ctx) posBelow(fam *expFamily, v sval, target types.Object, depth int) ([]string, bool) {
+	if depth > 8 {
+		return nil, false
+	}
+	switch x := v.(type) {
+	case svPath:
+		if x.root == target {
+			return x.steps, true
+		}
+	case svAddr:
+		if x.p.root == target {
+			return x.p.steps, true
+		}
+	case svIndex:
+		if b, ok := c.posBelow(fam, x.x, target, depth+1); ok {
+			return append(append([]string{}, b...), "[]"), true
+		}
+	case svElem:
+		if b, ok := c.posBelow(fam, x.of, target, depth+1); ok {
+			return append(append([]string{}, b...), "[]"), true
+		}
+	case svSel:
+		if b, ok := c.posBelow(fam, x.x, target, depth+1); ok {
+			return append(append([]string{}, b...), strings.Split(x.steps, ".")...), true
+		}
+	case svCall:
+		if f, ok := x.callee.(*types.Func); ok && fam.schemaExp[f] && x.idx == 0 && len(x.args) > 0 {
+			return c.posBelow(fam, x.args[0], target, depth+1)
+		}
+	case svStruct:
+		if base, ok := x.fields[""]; ok {
+			return c.posBelow(fam, base, target, depth+1)
+		}
+	}
+	return nil, false
+}
+
+// dstPosBelow: the position below target that a store destination designates.
+func (c *Ctx) dstPosBelow(fam *expFamily, dst svPath, target types.Object) ([]string, bool) {
+	var steps []string
+	for _, s := range dst.steps {
+		if s != "*" {
+			steps = append(steps, s)
+		}
+	}
+	if dst.root == target {
+		return steps, true
+	}
+	if dst.root == nil && dst.via != nil {
+		if b, ok := c.posBelow(fam, dst.via, target, 0); ok {
+			return append(append([]string{}, b...), steps...), true
+		}
+	}
+	return nil, false
+}
+
+func (c *Ctx) schemaVisitsSim(fam *expFamily, fd *ast.FuncDecl, target types.Object, depth int) map[string]*visitInfo {
+	out := map[string]*visitInfo{}
+	if depth > 3 {
+		return out
+	}
+	paths, ok := c.expanderHappyPaths(fam, fd)
+	if !ok {
+		return out
+	}
+	for _, p := range paths {
+		for i, e := range p.effs {
+			if e.kind != "call" || len(e.call.args) == 0 {
+				continue
+			}
+			g, isF := e.call.callee.(*types.Func)
+			if !isF || !fam.schemaExp[g] {
+				continue
+			}
+			pos, ok := c.posBelow(fam, e.call.args[0], target, 0)
+			if !ok {
+				continue
+			}
+			// stored back: a later store of this call's first result at the same position
+			stored := false
+			for _, w := range p.effs[i+1:] {
+				if w.kind != "write" {
+					continue
+				}
+				wpos, okw := c.dstPosBelow(fam, w.dst, target)
+				if !okw || joinSteps(wpos) != joinSteps(pos) {
+					continue
+				}
+				val := w.val
+				if st, isSt := val.(svStruct); isSt {
+					if base, has := st.fields[""]; has {
+						val = base
+					}
+				}
+				if sc, isCall := val.(svCall); isCall && sc.id == e.call.id && sc.idx == 0 {
+					stored = true
+				}
+			}
+			if len(pos) == 0 {
+				// the whole target is handed on: what that expander visits is visited, when its result replaces the target
+				if fv, has := p.final[target]; has {
+					if sc, isCall := fv.(svCall); isCall && sc.idx == 0 {
+						if f2, ok := sc.callee.(*types.Func); ok && fam.schemaExp[f2] {
+							for q, vi := range c.schemaVisits(fam, g, depth+1) {
+								if _, dup := out[q]; !dup {
+									out[q] = vi
+								}
+							}
+						}
+					}
+				}
+				continue
+			}
+			key := joinSteps(pos)
+			if prev, dup := out[key]; !dup || (!prev.stored && stored) {
+				out[key] = &visitInfo{call: e.call.call, stored: stored}
+			}
+		}
+	}
 	return out
 }
 
@@ -568,6 +815,21 @@ func ruleContainers(c *Ctx) {
 			}
 		}
 		covered := c.holderCoverage(fam, h.fd, hp, h.typ, 0)
+		// positions the syntactic pass does not see are looked for on the effect normal form (elements handed
+		// to their expander from inside closures or generic iteration helpers)
+		missing := false
+		for p := range positions {
+			if _, has := covered[p]; !has {
+				missing = true
+			}
+		}
+		if missing {
+			for p, why := range c.holderCoverageSim(fam, h.fd, hp) {
+				if _, has := covered[p]; !has {
+					covered[p] = why
+				}
+			}
+		}
 		for _, p := range sortedKeys(positions) {
 			why, has := covered[p]
 			key := h.typ + "." + p
@@ -1365,4 +1627,72 @@ func (c *Ctx) tupleFlagKnownTrue(fd *ast.FuncDecl, call *ast.CallExpr, k int) bo
 		return true
 	})
 	return uses > 0 && uses == guarded
+}
+
+// isElementOrSchema: the type is one of the expandable element kinds (by value or pointer).
+func isElementOrSchema(c *Ctx, t types.Type) bool {
+	nt, ok := types.Unalias(derefType(t)).(*types.Named)
+	return ok && nt.Obj().Pkg() == c.Types && (elementTypes[nt.Obj().Name()] || nt.Obj().Name() == "Schema" || nt.Obj().Name() == "Swagger")
+}
+
+// holderCoverageSim: on the happy paths of a holder function, the positions below the holder whose element is
+// handed to a family member - directly, by address, or as a local copy that is stored back afterwards.
+func (c *Ctx) holderCoverageSim(fam *expFamily, fd *ast.FuncDecl, hp types.Object) map[string]string {
+	out := map[string]string{}
+	if hp == nil {
+		return out
+	}
+	paths, ok := c.expanderHappyPaths(fam, fd)
+	if !ok {
+		return out
+	}
+	self, _ := c.Info.Defs[fd.Name].(*types.Func)
+	for _, p := range paths {
+		for i, e := range p.effs {
+			if e.kind != "call" {
+				continue
+			}
+			g, isF := e.call.callee.(*types.Func)
+			if !isF || !fam.members[g] || g == self {
+				continue
+			}
+			args := e.call.args
+			for ai, a := range args {
+				pos, ok := c.posBelow(fam, a, hp, 0)
+				viaCopy := false
+				var held sval
+				if !ok {
+					// the address of a local copy of the element: what the local held when the call was made
+					if ai < len(e.call.held) && e.call.held[ai] != nil {
+						held = e.call.held[ai]
+						pos, ok = c.posBelow(fam, held, hp, 0)
+						viaCopy = ok
+					}
+				}
+				if !ok || len(pos) == 0 {
+					continue
+				}
+				key := joinSteps(pos)
+				why := ""
+				if viaCopy {
+					stored := false
+					for _, w := range p.effs[i+1:] {
+						if w.kind != "write" {
+							continue
+						}
+						if wpos, okw := c.dstPosBelow(fam, w.dst, hp); okw && joinSteps(wpos) == key && svEqual(w.val, held) {
+							stored = true
+						}
+					}
+					if !stored {
+						why = "a copy of the element is expanded but never stored back at its position"
+					}
+				}
+				if prev, dup := out[key]; !dup || (prev != "" && why == "") {
+					out[key] = why
+				}
+			}
+		}
+	}
+	return out
 }
